@@ -94,6 +94,17 @@ def build_sessions(rng, n):
                 S.append(dict(kind='p2sh-plain', variant='P2SH-off', args=['--modify-flags=-P2SH', '0x' + tmpl.hex(), '0x' + inner.hex()], scripts=[('script', tmpl)]))
             else:
                 S.append(dict(kind='p2sh-plain', args=['0x' + tmpl.hex(), '0x' + inner.hex()], scripts=[('script', tmpl), ('P2SH script', inner)]))
+        elif r < 0.5:
+            # a legacy P2SH spend whose redeem script is EMPTY (legal: nothing more is executed), after other pushes in the scriptSig
+            x = rng.choice([bytes([0x51]), bytes([1, 2, 3]), bytes([rng.randrange(17, 0x80)]), bytes(rng.randrange(1, 256) for _ in range(rng.choice([2, 4, 20])))])   # (minimal pushes of true values)
+            ssig = push_only(x) + bytes([OP_0])
+            spk = bytes([OP_HASH160, 20]) + hash160(b'') + bytes([OP_EQUAL])
+            fund = rsign.funding_tx(rng, [(10000, spk)])
+            tx = rsign.spending_tx(rng, [(rtx.txid(fund), 0)], nout=1, version=2, locktime=0, sequences=[0xffffffff])
+            tx.vin[0][2] = ssig
+            tx.wit = None
+            S.append(dict(kind='p2sh-empty-redeem', args=['--tx=' + rtx.ser_tx(tx).hex(), '--txin=' + rtx.ser_tx(fund).hex()],
+                          scripts=[('scriptSig', ssig), ('scriptPubKey', spk), ('P2SH script', b'')], commit=0))
         else:
             otype = rng.choice(['p2pk', 'p2pkh', 'multisig', 'p2sh-multisig', 'p2sh-hashlock', 'p2wpkh', 'p2wsh', 'p2sh-p2wpkh', 'p2sh-p2wsh', 'p2tr-key', 'p2tr-script', 'p2tr-script', 'p2tr-script'])
             try:
